@@ -135,7 +135,82 @@ impl Gen {
         }
     }
 
+    /// op mix for programs under adjacent placement: full buffers, promotions that keep them
+    /// full, unsplit of arbitrary pairs, slice_ref across handles
+    fn next_adjacent(&mut self, m: &Machine) -> Op {
+        let live = m.live_ids();
+        let ms: Vec<usize> = live.iter().copied().filter(|&i| matches!(m.hs[i], Some(H::M(_)))).collect();
+        let bs: Vec<usize> = live.iter().copied().filter(|&i| matches!(m.hs[i], Some(H::B(_)))).collect();
+        let n = 1 + self.r.below(self.maxlen.max(2));
+        if live.len() < 2 || (live.len() < self.maxh && self.r.chance(25)) {
+            return match self.r.below(4) {
+                0 => Op { op: "b_from_box".into(), a: abs(n), ..Default::default() },
+                1 => Op { op: "b_copy".into(), a: abs(n), ..Default::default() },
+                _ => Op { op: "m_from_slice".into(), a: abs(n), ..Default::default() },
+            };
+        }
+        let room = live.len() < self.maxh;
+        for _ in 0..20 {
+            match self.r.below(12) {
+                0 | 1 | 2 if ms.len() >= 2 => {
+                    let h = ms[self.r.below(ms.len())];
+                    let o = ms[self.r.below(ms.len())];
+                    if h != o {
+                        return Op { op: "m_unsplit".into(), h, o, ..Default::default() };
+                    }
+                }
+                3 | 4 if room && !ms.is_empty() => {
+                    let h = ms[self.r.below(ms.len())];
+                    let a = match self.r.below(4) {
+                        0 => rel("cap", 0),
+                        1 => rel("len", 0),
+                        2 => abs(0),
+                        _ => abs(1),
+                    };
+                    return Op { op: "m_split_off".into(), h, a, ..Default::default() };
+                }
+                5 if room && !ms.is_empty() => {
+                    let h = ms[self.r.below(ms.len())];
+                    return Op { op: "m_split_to".into(), h, a: if self.r.chance(50) { abs(0) } else { abs(1) }, ..Default::default() };
+                }
+                6 if !ms.is_empty() => {
+                    let h = ms[self.r.below(ms.len())];
+                    return Op { op: "m_fill_spare".into(), h, ..Default::default() };
+                }
+                7 | 8 if !bs.is_empty() && room => {
+                    let h = bs[self.r.below(bs.len())];
+                    let o = live[self.r.below(live.len())];
+                    if o != h {
+                        let (x, y) = match self.r.below(3) {
+                            0 => (0, 1),
+                            1 => (0, 64),
+                            _ => (self.r.below(4), 64),
+                        };
+                        return Op { op: "b_slice_ref".into(), h, o, a: abs(x), b: abs(y), mode: 3, ..Default::default() };
+                    }
+                }
+                9 if !live.is_empty() => {
+                    let h = live[self.r.below(live.len())];
+                    return Op { op: "drop".into(), h, ..Default::default() };
+                }
+                10 if !ms.is_empty() => {
+                    let h = ms[self.r.below(ms.len())];
+                    return Op { op: "m_extend".into(), h, a: abs(self.r.below(3)), ..Default::default() };
+                }
+                11 if !ms.is_empty() => {
+                    let h = ms[self.r.below(ms.len())];
+                    return Op { op: "m_freeze".into(), h, ..Default::default() };
+                }
+                _ => {}
+            }
+        }
+        Op { op: "m_from_slice".into(), a: abs(n), ..Default::default() }
+    }
+
     pub fn next(&mut self, m: &Machine) -> Op {
+        if self.profile == "adjacent" {
+            return self.next_adjacent(m);
+        }
         let live = m.live_ids();
         let mutc = self.profile == "mut";
         if live.is_empty() || (live.len() < self.maxh && self.r.chance(if live.len() < 2 { 60 } else { 12 })) {
